@@ -130,17 +130,18 @@ func lockingHistory(w *tracew.Writer, seed int64, run, depth int, o LockingOpts)
 }
 
 type lockGen struct {
-	s          *Session
-	r          *rand.Rand
-	nextID     int
-	nv         int
-	mode       string
-	clean      bool         // only requests the modules accept (the block message must then succeed)
-	exodus     bool         // this block: every validator, the bedrock one included, withdraws everything (the whole set leaves at once)
-	afterBurst int          // burst mode: 2 = the next block adds a later maturity instant, 1 = the one after jumps the clock over both
-	lastAbsent map[int]bool // who was absent in the previous block
-	forceExit  bool         // this block: a clean exit (everything unlocked, claim) of one validator for sure
-	boost      bool         // this block: nothing but creations and generous locks, so that several validators are active afterwards
+	s                       *Session
+	r                       *rand.Rand
+	nextID                  int
+	nv                      int
+	mode                    string
+	clean                   bool         // only requests the modules accept (the block message must then succeed)
+	exodus                  bool         // this block: every validator, the bedrock one included, withdraws everything (the whole set leaves at once)
+	afterBurst              int          // burst mode: 2 = the next block adds a later maturity instant, 1 = the one after jumps the clock over both
+	lastAbsent              map[int]bool // who was absent in the previous block
+	fracStage, fracV, fracT int          // the "power from crumbs" scenario: stage, validator, token
+	forceExit               bool         // this block: a clean exit (everything unlocked, claim) of one validator for sure
+	boost                   bool         // this block: nothing but creations and generous locks, so that several validators are active afterwards
 }
 
 func (g *lockGen) id() int { g.nextID++; return g.nextID }
@@ -351,6 +352,43 @@ func (g *lockGen) plan() *BlockPlan {
 			}
 			lk.Locks = append(lk.Locks, &goattypes.LockRequest{Validator: addr, Token: project.TokenAddrs[t-1], Amount: big.NewInt(amt)})
 			locks = append(locks, Ev{"v": vid, "t": t, "amt": amt})
+		}
+	}
+	// power from crumbs: a validator that holds nothing yet receives two single-unit locks of a token without threshold in two
+	// different blocks (each is worth weight/PowerReduction, rounded DOWN on its own), then takes both units out in one unlock
+	// (worth the power of two units at once, possibly more than the validator ever got): its power ends at zero, never below
+	if !g.exodus && !g.boost {
+		switch g.fracStage {
+		case 0:
+			if rare(6) {
+				for vi, v := range st.Val {
+					empty := v.Exists && vi > 0 && (v.Status == "Pending" || v.Status == "Active") && v.Power == 0
+					for ti := range st.Tokens {
+						empty = empty && v.Locking[ti] == 0
+					}
+					if !empty {
+						continue
+					}
+					for ti := range st.Tokens {
+						if st.Tokens[ti].Exists && st.Thr[ti] == 0 && st.Tokens[ti].Weight > 0 && g.fracStage == 0 {
+							g.fracV, g.fracT, g.fracStage = vi, ti, 1
+						}
+					}
+				}
+			}
+		}
+		if g.fracStage == 1 || g.fracStage == 2 {
+			lk.Locks = append(lk.Locks, &goattypes.LockRequest{Validator: c.KR.Vals[g.fracV].EthAddr(), Token: project.TokenAddrs[g.fracT], Amount: big.NewInt(1)})
+			locks = append(locks, Ev{"v": g.fracV + 1, "t": g.fracT + 1, "amt": int64(1)})
+			g.fracStage++
+		} else if g.fracStage == 3 {
+			if v := st.Val[g.fracV]; v.Exists && v.Locking[g.fracT] >= 2 {
+				id := g.id()
+				lk.Unlocks = append(lk.Unlocks, &goattypes.UnlockRequest{Id: uint64(id), Validator: c.KR.Vals[g.fracV].EthAddr(), Recipient: rndAddr(r),
+					Token: project.TokenAddrs[g.fracT], Amount: big.NewInt(2)})
+				unlocks = append(unlocks, Ev{"id": id, "v": g.fracV + 1, "t": g.fracT + 1, "amt": int64(2)})
+			}
+			g.fracStage = 0
 		}
 	}
 	if !rare(3) && !g.exodus {
